@@ -396,7 +396,7 @@ pub fn classify(r: &Req, resp: &Resp) -> Vec<&'static str> {
     l
 }
 
-pub const RULE: &str = "batches of n in {0,1,2,3,8,33} (and one each of 94,95,96,190,250,400: Straus/Pippenger switch at 2n+1=190) drawn from a pool of honest entries (canonical torsion-free keys and R, mixed message lengths, several messages per key), with 0..3 corruptions (another honest key, message bit flip, another honest R, another valid S, the cancellation pair S_i+e / S_j-e, duplication; and a dedicated family of single cancellation / swap pairs at structured index distances 1,2,3,4,7,8,16,32,64,128,256 in batches of 2..257 distinct honest entries), and a family of batches of 1..1100 entries with exactly one corrupted entry at a structured position (first, last, around 64/128/256/512, middle, random) or none, and forgeries S_i += z_j, S_j -= z_i built from coefficients predicted under the hypotheses that S is not bound or that nothing is bound (the merlin derivation replicated), error classes (S+l, undecodable R, each kind of slice-length mismatch), permutation and repeated calls; oracle = conjunction of the model's single-verification predicate over the entries (error classes must give Err, never a panic or Ok); non-trivial = >=2 entries with a corruption, n on a regime boundary, an error-class input or a repeated call";
+pub const RULE: &str = "batches of n in {0,1,2,3,8,33} (and one each of 94,95,96,190,250,400: Straus/Pippenger switch at 2n+1=190) drawn from a pool of honest entries (canonical torsion-free keys and R, mixed message lengths, several messages per key), with 0..3 corruptions (another honest key, message bit flip, another honest R, another valid S, the cancellation pair S_i+e / S_j-e, duplication; and a dedicated family of single cancellation / swap pairs at structured index distances 1,2,3,4,7,8,16,32,64,128,256 in batches of 2..257 distinct honest entries, half of the pairs pinned to the first entry or to the last entry as partner), and a family of batches of 1..1100 entries with exactly one corrupted entry at a structured position (first, last, around 64/128/256/512, middle, random) or none, and forgeries S_i += z_j, S_j -= z_i built from coefficients predicted under the hypotheses that S is not bound or that nothing is bound (the merlin derivation replicated), error classes (S+l, undecodable R, each kind of slice-length mismatch), permutation and repeated calls; oracle = conjunction of the model's single-verification predicate over the entries (error classes must give Err, never a panic or Ok); non-trivial = >=2 entries with a corruption, n on a regime boundary, an error-class input or a repeated call";
 
 pub fn checks(tier: Tier) -> Vec<Check> {
     vec![
